@@ -168,7 +168,9 @@ def strings_leg(chk, classes):
                 culprits.append((what, s, q1, r1["header"], e1))
         return [("compile", what, s, q1, hdr, e1) for what, s, q1, hdr, e1 in culprits]
     got = {}
-    for line in out.splitlines():
+    for line in out.split("\n"):
+        if not line:
+            continue
         i, kind, rest = line.split(" ", 2)
         got.setdefault((int(i), kind), []).append(rest)
     problems = []
